@@ -115,6 +115,7 @@ type VC struct {
 	unsupported map[string]bool
 	boxUsed     map[string]bool
 	quiet       int // >0: speculative run, do not record obligations
+	exemptC03   int // >0: executing below a declared error swallow
 	globals     []string // unconditional facts about uninterpreted symbols (never rolled back)
 	rawDecls    []string
 	declIndex   map[string]int
